@@ -63,15 +63,16 @@ class HOp:
 
 class HttpGen:
     """random history of valid protocol requests over HTTP (with harness-level steps)"""
-    def __init__(self, rng, nclients=3):
+    def __init__(self, rng, nclients=3, explicit_only=False):
         self.rng, self.nclients = rng, nclients
         self.nver = {}
+        self.explicit_only = explicit_only      # only literal payloads (twin runs must upload the same bytes)
     def form(self):
         return self.rng.choice(VALID_FORMS)
     def body(self):
         r = self.rng
         k = pick(r, [("small", 6), ("chunks", 3), ("mid", 1)])
-        if k == "small": return payload(r)
+        if k == "small" or self.explicit_only: return payload(r)
         if k == "chunks": return "chunks:" + ",".join(str(r.randint(1, 40)) for _ in range(r.randint(2, 4)))
         return f"r:{r.randint(65, 3000)}"
     def op(self):
@@ -446,7 +447,7 @@ class C16(HttpProp):
             ops = state_prefix(r, (1, 2))                 # data exists before the list
             al = lists[k % len(lists)]
             ops.append(f"allow {al}")
-            g = HttpGen(r, 3)
+            g = HttpGen(r, 3, explicit_only=True)
             for _ in range(r.randint(6, 25)):
                 step = g.op()
                 if step[0].startswith("http "):
